@@ -12,12 +12,15 @@ Ls == {Zero, R(1), Q(-3, 2)}
 As == {R(1), R(-2), Q(1, 3)}
 Qs == {Q(1, 2), Q(-1, 2), Q(1, 3), Q(-2, 3), Q(3, 4), R(2), Q(-3, 2), Q(1, 5)}
 
+Qs3 == {Q(1, 2), Q(-1, 2), Q(1, 3), Q(2, 3)}       \* smaller ratio set for three transients (7 terms)
+As3 == {R(1), R(-2)}
+
 Term(j) == LET RECURSIVE sm(_)
                sm(i) == IF i = 0 THEN L ELSE RAdd(RMul(a[i], RPow(q[i], j)), sm(i - 1))
            IN  sm(k)
 
 Init == /\ k \in 1..KMaxTr /\ L \in Ls
-        /\ a \in [1..k -> As] /\ q \in [1..k -> Qs]
+        /\ a \in [1..k -> IF k >= 3 THEN As3 ELSE As] /\ q \in [1..k -> IF k >= 3 THEN Qs3 ELSE Qs]
         /\ \A i, j \in 1..k : i < j => RLt(q[i], q[j])         \* distinct ratios, one order only
         /\ s = <<>> /\ tab = <<>> /\ okk = TRUE
 
